@@ -243,4 +243,5 @@ class PreferenceProposition(Proposition):
         preference_proposition = PreferenceProposition(proposition.requisite, proposition.relations, self.weight,
                                                        self.level,
                                                        [discriminant.copy() for discriminant in self.discriminant])
+        preference_proposition.type = self.type
         return preference_proposition
